@@ -153,7 +153,13 @@ def its_to_torch(
     if isinstance(its, list):
         torch_samples = []
         for _its in its:
-            torch_samples.append(_its_to_torch(_its))
+            torch_samples.append(
+                _its_to_torch(
+                    _its,
+                    node_feature_transform=node_feature_transform,
+                    edge_feature_transform=edge_feature_transform,
+                )
+            )
         return Batch.from_data_list(torch_samples)
     else:
         return _its_to_torch(
